@@ -264,3 +264,28 @@ func (k *BK) BurnCoins(ctx context.Context, moduleName string, amounts sdk.Coins
 	sdk.UnwrapSDKContext(ctx).EventManager().EmitEvent(banktypes.NewCoinBurnEvent(acc.GetAddress(), amounts))
 	return nil
 }
+
+// ---- denomination metadata (x/bank keeps it under its own prefix) ----------------
+
+func metaKey(denom string) []byte { return append([]byte{0x01}, denom...) }
+
+func (k *BK) HasDenomMetaData(ctx context.Context, denom string) bool {
+	return bkStore(ctx).Has(metaKey(denom))
+}
+
+func (k *BK) SetDenomMetaData(ctx context.Context, m banktypes.Metadata) {
+	c := m
+	bkStore(ctx).Set(metaKey(m.Base), verif.Encode(&c))
+}
+
+func (k *BK) GetDenomMetaData(ctx context.Context, denom string) (banktypes.Metadata, bool) {
+	bz := bkStore(ctx).Get(metaKey(denom))
+	if bz == nil {
+		return banktypes.Metadata{}, false
+	}
+	var m banktypes.Metadata
+	if !verif.Decode(bz, &m) {
+		panic("model.BK: undecodable metadata")
+	}
+	return m, true
+}
